@@ -310,6 +310,43 @@ def rule_wiring(chk):
             bind[m.group(1)] = U(l.exprs[0])
     chk.decide(bind == {'dst': 'dest', 'src': 'source'}, 'pointer-wiring', 'template-binding', file=TPL, func='do_group', line=0,
                detail_bad='template binds %s' % bind, detail_ok='dst = self.<dest>; src = self.<source>')
+    # the d_* / s_* pointers are (re)bound before every equation hook that can read them, under no condition the hook itself is not under
+    import importlib.util
+    spec3 = importlib.util.spec_from_file_location('c03mod', os.path.join(os.path.dirname(os.path.abspath(__file__)), 'c03.py'))
+    c03 = importlib.util.module_from_spec(spec3)
+    spec3.loader.exec_module(c03)
+    lines3, table3, mod3 = c03.shape(tpl, 'do_group')
+    where = {}
+    for st in ast.walk(mod3):
+        if not isinstance(st, (ast.Expr, ast.For, ast.With)):
+            continue
+        tgt = st.value if isinstance(st, ast.Expr) else st.iter if isinstance(st, ast.For) else st.items[0].context_expr
+        ph = c03.phase_of(table3, tgt)
+        if ph is not None:
+            where.setdefault(ph[0], []).append(st)
+
+    def guards(st):
+        out = []
+        p_ = getattr(st, 'parent', None)
+        while p_ is not None:
+            if isinstance(p_, ast.If):
+                out.append(compact(p_.test))
+            p_ = getattr(p_, 'parent', None)
+        return set(out)
+    for setup, users in (('src_setup', ('initialize_pair', 'loop_all', 'loop')),
+                         ('dest_setup', ('initialize', 'loop_no_source', 'initialize_pair', 'loop_all', 'loop', 'post_loop'))):
+        ss = where.get(setup, [])
+        for u_ in users:
+            us = where.get(u_, [])
+            if len(ss) != 1 or not us:
+                chk.undecided('pointer-wiring', '%s-before-%s' % (setup, u_), file=TPL, func='do_group', line=0, detail='phase not found exactly once in the emitted shape of do_group')
+                continue
+            okp = all((ss[0].lineno, ss[0].col_offset) < (x.lineno, x.col_offset) for x in us) and all(guards(ss[0]) <= guards(x) for x in us)
+            chk.decide(okp, 'pointer-wiring', '%s-before-%s' % (setup, u_), node=ss[0], file=TPL, func='do_group',
+                       detail_bad='the %s pointers are bound after `%s` is emitted, or only under %s which `%s` is not under: the hook then runs with the pointers of the array '
+                                  'processed before (or none at all)' % ('s_*' if setup == 'src_setup' else 'd_*', u_, sorted(guards(ss[0]) - set.intersection(*[guards(x) for x in us])), u_),
+                       detail_ok='bound first, under no extra condition')
+    c03.rule_iteration(chk)
     # the wrapper that `src.X` / `dst.X` resolve through must (re)bind every property AND every constant whenever an array is set
     def pick(test):
         return U(test) == 'len(group.data) > 0'
@@ -375,6 +412,23 @@ class PA:
                    detail_ok='construction binds the same set as set_array')
         chk.decide(upd_ok, 'pointer-wiring', 'update-rebinds-every-array', node=upa, file=TPL, func='AccelerationEval.update_particle_arrays',
                    detail_bad='update_particle_arrays does not re-bind every array handed to it to the wrapper of the same name', detail_ok='model run with two arrays: each re-bound to its own wrapper')
+    # time and step reach the equations in double precision: the Python methods compute with Python floats (doubles), so no parameter or local of the
+    # generated evaluator may be single precision, and t / dt of compute() are doubles
+    singles = []
+    nfun = 0
+    for f_ in [x for x in ast.walk(mod2) if isinstance(x, ast.FunctionDef)]:
+        nfun += 1
+        for an, ty in (getattr(f_, 'cy_argtypes', None) or {}).items():
+            if str(ty).strip() == 'float':
+                singles.append('%s(%s %s)' % (f_.name, ty, an))
+        for a_ in ast.walk(f_):
+            if isinstance(a_, ast.AnnAssign) and isinstance(a_.annotation, ast.Constant) and str(a_.annotation.value).strip() == 'float':
+                singles.append('%s: cdef float %s' % (f_.name, U(a_.target)))
+    cmp_ = M.find_func(aev, 'compute')
+    tt = getattr(cmp_, 'cy_argtypes', None) or {}
+    chk.decide(not singles and tt.get('t') == 'double' and tt.get('dt') == 'double', 'hook-parameters', 'double-precision-time', node=cmp_, file=TPL, func='AccelerationEval.compute',
+               detail_bad='single-precision declarations in the generated evaluator: %s; compute(t, dt) typed %s - equations and group conditions then see t / dt rounded to float32'
+                          % (singles, tt), detail_ok='compute(double t, double dt); no float declarations in %d functions' % nfun)
     # known types for both prefixes
     kt = M.find_func(ah, 'get_known_types_for_arrays')
     try:
